@@ -142,10 +142,36 @@ def fmt(r):
     return "ok:" + hx(r) if isinstance(r, bytes) else r
 
 
+class FragRaw(io.RawIOBase):
+    """a socket-like raw stream: every read delivers at most `k` bytes of what 'has arrived'"""
+
+    def __init__(self, data: bytes, k: int):
+        self.data, self.k, self.pos = data, k, 0
+
+    def readable(self):
+        return True
+
+    def readinto(self, b):
+        n = min(len(b), self.k, len(self.data) - self.pos)
+        b[:n] = self.data[self.pos : self.pos + n]
+        self.pos += n
+        return n
+
+    def tell(self):
+        return self.pos
+
+
 def run_dechunk(case):
     from werkzeug.serving import DechunkedInput
 
-    rfile = io.BytesIO(unhx(case["wire"]))
+    wire = unhx(case["wire"])
+    frag = case.get("frag")
+    if frag:
+        # what the handler has: a BufferedReader over the socket. read(n) must block until n bytes
+        # (or EOF) although each raw read brings at most frag[0] bytes and the buffer holds frag[1]
+        rfile = io.BufferedReader(FragRaw(wire, frag[0]), frag[1])
+    else:
+        rfile = io.BytesIO(wire)
     spy = make_spy(DechunkedInput)(rfile)
     obj = spy if case["mode"] == "raw" else io.BufferedReader(spy, case["bufsize"])
     outs = []
@@ -164,7 +190,7 @@ def run_dechunk(case):
                 outs.append("RESIZED" if len(b) != int(arg) else bytes(b[:cnt]))
         except Exception as e:  # noqa: BLE001
             outs.append("EXC:" + type(e).__name__)
-    rest = len(rfile.getvalue()) - rfile.tell()
+    rest = len(wire) - rfile.tell()
     if case["mode"] != "raw":
         try:
             obj.detach()
@@ -256,6 +282,13 @@ class DechunkStream(Stream):
         {"wire": hx(b"5\r\nhelloXX0\r\n\r\n"), "good": hx(b"hello"), "kind": "malformed", "mode": "raw", "bufsize": 0, "ops": ["r5", "r5"]},
         {"wire": hx(b"5;x=1\r\nhello\r\n0\r\n\r\n"), "good": hx(b""), "kind": "malformed", "mode": "raw", "bufsize": 0, "ops": ["a"]},
         {"wire": hx(b"3\r\nabc\r\n0\r\nX-T: 1\r\n\r\n"), "good": "~", "kind": "lenient", "mode": "raw", "bufsize": 0, "ops": ["a"]},
+        # the chunk data is not completely buffered when it is asked for: read(n) must wait for it (a read1 /
+        # recv style "what has arrived" read would report a body that ended inside a chunk)
+        {"wire": hx(b"c\r\nhello, world\r\n0\r\n\r\n"), "good": hx(b"hello, world"), "kind": "ok", "mode": "raw", "bufsize": 0, "frag": [4, 16], "ops": ["a"]},
+        {"wire": hx(b"c\r\nhello, world\r\n0\r\n\r\n"), "good": hx(b"hello, world"), "kind": "ok", "mode": "raw", "bufsize": 0, "frag": [1, 1], "ops": ["r5", "r100"]},
+        {"wire": hx(b"64\r\n" + b"x" * 100 + b"\r\n0\r\n\r\n"), "good": hx(b"x" * 100), "kind": "ok", "mode": "raw", "bufsize": 0, "frag": [7, 16], "ops": ["r100", "r1"]},
+        {"wire": hx(b"5000\r\n" + b"y" * 0x5000 + b"\r\n0\r\n\r\n"), "good": hx(b"y" * 0x5000), "kind": "ok", "mode": "buffered", "bufsize": 8192, "frag": [1460, 8192], "ops": ["a"]},
+        {"wire": hx(b"64\r\n0123456789"), "good": hx(b"0123456789"), "kind": "malformed", "mode": "raw", "bufsize": 0, "frag": [3, 16], "ops": ["r20"]},
     ]
 
     def cases(self, rng, tier):
@@ -263,6 +296,8 @@ class DechunkStream(Stream):
             chunks, ft = gen_chunks(rng)
             mode = rng.choice(["raw", "raw", "buffered"])
             case = {"mode": mode, "bufsize": rng.choice([1, 2, 3, 8, 64, 8192]) if mode != "raw" else 0, "ops": gen_ops(rng, mode == "raw")}
+            if rng.random() < 0.5:
+                case["frag"] = [rng.choice([1, 2, 3, 7, 16, 100]), rng.choice([1, 16, 64])]
             if rng.random() < 0.6:
                 case.update(wire=hx(py_encode(chunks, ft)), good=hx(b"".join(d for d, _, _ in chunks)), kind="ok")
             else:
@@ -311,7 +346,7 @@ class DechunkStream(Stream):
         return len(unhx(case["wire"])) > 5
 
     def bucket(self, case, real_out):
-        return f"{case['kind']}/{case['mode']}/" + ("err" if "EXC" in real_out else "ok")
+        return f"{case['kind']}/{case['mode']}/" + ("frag/" if case.get("frag") else "") + ("err" if "EXC" in real_out else "ok")
 
     def mutate(self, case, rng):
         for i in range(len(case["ops"])):
@@ -349,7 +384,7 @@ class EncodeStream(Stream):
 
 SEGMENTS = ["a", "b%20c", "%C3%A9", "%E6%97%A5%E6%9C%AC", "x;y=1", "a,b", "~t", "a+b", "%41", "%7e", "%2F", "idx.html", "a%25b", "%F0%9F%98%80", "-._", "@:"]
 QUERIES = ["", "", "x=1", "a=%20&b=%C3%A9", "q=a+b&q=c", "k", "a=b?c=d", "%26=%3D", "x=/y//z"]
-REQ_HEADERS = [("X-Custom", "v1"), ("X-Repeat", "1"), ("X-Repeat", "2"), ("x-repeat", "3"), ("Accept", "*/*"), ("X_Under", "u"), ("X-Under", "dash"), ("Content-Type", "text/plain; charset=utf-8"), ("Cookie", "a=b; c=d"), ("x-lower", "lv"), ("X-MiXed-Case", "Mv"), ("Accept-Language", "en, de;q=0.5"), ("X-Empty", ""), ("X-Comma", "a, b"), ("User_Agent", "evil")]
+REQ_HEADERS = [("X-Author", "Anders Ångström".encode().decode("latin-1")), ("X-Ctl", "a\x0bb\x0cc\x1cd\x1de\x1ef\x85g"), ("X-Care-Of", "℅ x".encode().decode("latin-1")), ("X-Custom", "v1"), ("X-Repeat", "1"), ("X-Repeat", "2"), ("x-repeat", "3"), ("Accept", "*/*"), ("X_Under", "u"), ("X-Under", "dash"), ("Content-Type", "text/plain; charset=utf-8"), ("Cookie", "a=b; c=d"), ("x-lower", "lv"), ("X-MiXed-Case", "Mv"), ("Accept-Language", "en, de;q=0.5"), ("X-Empty", ""), ("X-Comma", "a, b"), ("User_Agent", "evil")]
 STATUSES = ["200 OK", "200 OK", "201 Created", "204 No Content", "304 Not Modified", "404 Not Found", "500 Internal Server Error", "100 Continue", "101 Switching Protocols", "302 Found", "299 Custom Reason Phrase", "205 Reset Content", "199 Odd"]
 RESP_HEADERS = [("Content-Type", "text/plain"), ("X-Dup", "1"), ("X-Dup", "2"), ("Set-Cookie", "a=b"), ("Set-Cookie", "c=d; Path=/"), ("Location", "/next?x=1"), ("X-Empty", ""), ("ETag", '"abc"')]
 PIECES = [b"", b"hello", b"x" * 1000, b"\r\n", b"0\r\n\r\n", b"5\r\nhello\r\n", b"\x00\xff", b"tail"]
@@ -416,7 +451,14 @@ def run_server_case(case):
             write(p)
         return iter(pieces[r["nwrite"] :])
 
-    raw = g.run_socketpair(build_request(case), app, case["protocol"])
+    req = build_request(case)
+    split_at = None
+    if case.get("split") is not None:
+        # cut inside the body: `split` counts from the end of the request head
+        split_at = req.index(b"\r\n\r\n") + 4 + case["split"]
+        if not 0 < split_at < len(req):
+            split_at = None
+    raw = g.run_socketpair(req, app, case["protocol"], split_at=split_at)
     status_line, headers, body, ok = g.split_response(raw)
     return seen, status_line, headers, body, ok, raw
 
@@ -442,8 +484,11 @@ def gen_server_case(rng):
         if framing == "chunked":
             off = 0
             style = rng.choice(["c", "l", "mix"])
+            if rng.random() < 0.04:
+                n = rng.choice([8192, 9000, 20000])
+                body = bytes(rng.choice(b"abcdefghij\r\n0123456789 \x00\xff") for _ in range(n))
             while off < n:
-                k = min(n - off, rng.choice([1, 2, 3, 7, 16, 17, 100, 999]))
+                k = min(n - off, rng.choice([1, 2, 3, 7, 16, 17, 100, 999] if n < 8000 else [n, 8192, 8193, 5000]))
                 chunks.append([k, style if style != "mix" else rng.choice("cl"), rng.random() < 0.5])
                 off += k
     pieces = [rng.choice(PIECES) for _ in range(rng.choice([0, 1, 1, 2, 3, 4]))]
@@ -457,6 +502,7 @@ def gen_server_case(rng):
         "chunks": chunks,
         "final_term": rng.choice("cl"),
         "te": rng.choice(["chunked", "chunked", "chunked", "Chunked", "CHUNKED", "chunked "]),
+        "split": rng.choice([1, 3, 7, 20]) if (framing != "none" and rng.random() < 0.03) else None,
         "reads": [rng.choice([1, 2, 3, 16, 17, 100, 4096]) for _ in range(rng.choice([0, 0, 1, 3, 8]))],
         "protocol": rng.choice(["HTTP/1.1", "HTTP/1.1", "HTTP/1.0"]),
         "resp": {
@@ -495,6 +541,15 @@ class ServerStream(Stream):
         base_case(target="/a%20b/%C3%A9?q=%20&r=%C3%A9", headers=[["X-Repeat", "1"], ["X_Under", "u"], ["X-Repeat", "2"]]),
         base_case(target="http://abs.example:8080/p/%2F?x=1"),
         base_case(target="//double/slash?x=1"),  # known finding F19b
+        # chunk data that is not completely in the handler's 8 KiB buffer when it is asked for
+        base_case(method="POST", framing="chunked", body=hx(b"z" * 0x5000), chunks=[[0x5000, "c", False]], reads=[]),
+        base_case(method="POST", framing="chunked", body=hx(b"z" * 0x5000), chunks=[[0x5000, "c", False]], reads=[100, 9000, 3]),
+        base_case(method="POST", framing="chunked", body=hx(bytes(range(256)) * 40), chunks=[[10240, "l", True]], reads=[4096]),
+        # ... or arrives in two TCP writes: `c\r\nhell` | `o, world\r\n0\r\n\r\n`
+        base_case(method="POST", framing="chunked", body=hx(b"hello, world"), chunks=[[12, "c", False]], reads=[], split=7),
+        base_case(method="POST", framing="chunked", body=hx(b"hello, world"), chunks=[[5, "c", False], [7, "c", False]], reads=[3], split=1),
+        base_case(method="POST", framing="cl", body=hx(b"hello, world"), reads=[], split=4),
+        base_case(headers=[["X-Author", "Anders Ångström".encode().decode("latin-1")], ["X-Ctl", "a\x0bb\x0cc\x1cd\x1de\x1ef\x85g"]]),
     ]
 
     def cases(self, rng, tier):
@@ -652,7 +707,10 @@ class ServerStream(Stream):
 
 
 HDR_NAMES = ["X-A", "x-a", "X-a", "X_A", "X-B", "Accept", "accept", "Content-Type", "content-type", "Content-Length", "CONTENT-LENGTH", "Content_Type", "X-A-B", "X-A_B", "Cookie", "Host", "User-Agent", "User_Agent", "X.Dot", "X1"]
-HDR_VALUES = ["1", "2", "v", "a, b", "", "text/plain", "12", "x=y; z", "a\r\n b", "q\r\n\tr", "  padded  ", "é", "0"]
+# ordinary latin-1 header data that str.splitlines() would treat as line breaks, and UTF-8 text whose bytes contain 0x85
+ODD_VALUES = ["a\x0bb", "a\x0cb", "a\x1cb", "a\x1db", "a\x1eb", "a\x85b", "tail\x85", "Anders Ångström".encode().decode("latin-1"),
+              "Ņ".encode().decode("latin-1"), "℅ 5".encode().decode("latin-1"), "x\x0b\x0c\x1c\x1d\x1e\x85y"]
+HDR_VALUES = ["1", "2", "v", "a, b", "", "text/plain", "12", "x=y; z", "a\r\n b", "q\r\n\tr", "  padded  ", "é", "0"] + ODD_VALUES
 
 
 class EnvironStream(Stream):
@@ -665,7 +723,7 @@ class EnvironStream(Stream):
         {"headers": [["X-Fold", "a\r\n b"], ["X-Fold", "c"]]},
         {"headers": [["User_Agent", "evil"], ["User-Agent", "good"]]},
         {"headers": []},
-    ]
+    ] + [{"headers": [["X-Author", v], ["X-Author", "second"]]} for v in ODD_VALUES]
 
     def cases(self, rng, tier):
         n = 0
@@ -715,6 +773,25 @@ class EnvironStream(Stream):
                 expect[key] = v if key not in expect else expect[key] + "," + v
         if dict(env) != expect:
             return f"environ headers {dict(env)!r} != headers sent (underscore names dropped, repeats comma-joined) {expect!r}"
+        # the bytes the client put into each value (CRLF of folded lines aside) arrive unchanged
+        sent = {}
+        for k, v in case["headers"]:
+            if "_" in k:
+                continue
+            key = k.upper().replace("-", "_")
+            sent.setdefault(key, []).append(v)
+        for key, vals in sent.items():
+            ek = key if key in ("CONTENT_TYPE", "CONTENT_LENGTH") else "HTTP_" + key
+            got = dict(env).get(ek)
+            if got is None:
+                return f"header {key} not delivered"
+            want = [v.replace("\r\n", "").strip(" \t") for v in vals]
+            if key in ("CONTENT_TYPE", "CONTENT_LENGTH"):
+                ok = got.strip(" \t") == want[-1]
+            else:
+                ok = [x.strip(" \t") for x in got.split(",")] == [y for w in want for y in (x.strip(" \t") for x in w.split(","))]
+            if not ok:
+                return f"bytes of header {key} changed in transit: sent {vals!r}, environ has {got!r}"
         return None
 
     def nontrivial(self, case, real_out):
@@ -885,7 +962,7 @@ CHECK = Check(
     streams=[ChunkLenStream(), DechunkStream(), EncodeStream(), ServerStream(), EnvironStream(), MakeEnvironStream(), HttpServerPathStream()],
     assumptions=[
         "partial: http.server's request-line / header parsing, sockets, selectors and timing are outside the model; they are only exercised by stream server",
-        "rfile is a blocking buffered reader: readline() returns up to and including LF (or everything), read(n) returns n bytes unless the stream ends (modelled as a byte list)",
+        "rfile is a blocking buffered reader: readline() returns up to and including LF (or everything), read(n) returns n bytes unless the stream ends (modelled as a byte list); that DechunkedInput uses exactly these two calls (not read1 / recv) is the AST obligation serving_io_structure, and the dechunk / server streams feed it through io.BufferedReader over a raw stream that delivers at most k bytes per read, with chunks larger than the buffer and request bodies written to the socket in two pieces",
         "Python int(s, 16) on the stripped latin-1 size line is hand-modelled (sign, 0x prefix, single underscores, surrounding whitespace) and validated by stream chunklen",
         "io.BufferedReader / RawIOBase.readall are treated as arbitrary callers of DechunkedInput.readinto (the theorems hold for every sequence of positive read sizes); the stream replays the calls they issue",
         "chunk extensions and trailers are outside the property's quantifier (the code rejects both with OSError)",
